@@ -97,6 +97,13 @@ func main() {
 		fmt.Println("replay: property held on this case")
 	case "worker":
 		checks.WorkerMain(os.Args[2:])
+	case "job": // debugging aid: run one job file in-process and print the result
+		bz, err := os.ReadFile(os.Args[2])
+		if err != nil {
+			fmt.Fprintln(os.Stderr, err)
+			os.Exit(2)
+		}
+		fmt.Println(checks.RunJobJSON(bz))
 	default:
 		usage()
 	}
